@@ -1,6 +1,6 @@
 #!/bin/bash
 # usage: tools/sweep.sh <tier> <seed>...   runs every registered check at each seed; prints one line per run
-cd /verif
+cd "$(dirname "$0")/.." || exit 2
 tier=$1; shift
 for seed in "$@"; do
   for id in $(python3 -c "import json;print(' '.join(c['property_id'] for c in json.load(open('MANIFEST.json'))['checks']))"); do
